@@ -111,6 +111,16 @@ CLAIMED = {
              "or left unanswered; reply codes, S6F11 CEIDs, refusals, state and SV of each step are validated by TLC.",
         note="communication is established before each history; link loss during a history is C07's subject",
         design="5/C11"),
+    "C13": dict(
+        technique="nondeterministic TLA+ monitor GemDataMon/GemData checked by TLC; walks over its alphabet / transition relation "
+                  "replayed on a real GemEquipmentHandler; every step validated by TLC (GemDataJudge)",
+        text="Replies of S1F3/S1F11/S2F13/S2F29/S5F5/S5F7, all-or-nothing and bounds of S2F15, S5F3 and S5F1 reporting are a TLA+ "
+             "monitor (1920 states, 232k transitions; ConstantsWithinBounds, AllOrNothing, AlarmReportIffEnabledChange checked by "
+             "TLC). Random walks of 40 requests over the 121-request alphabet (thorough: walks covering the complete relation) run "
+             "on a real equipment handler with numeric and text ids; decoded replies, S5F1 reports and the constant/alarm tables "
+             "after every step are validated by TLC.",
+        note="two user SVs, two ECs (one bounded), two alarms; value classes below/min/inside/max/above; predefined SVs masked",
+        design="5/C13"),
 }
 
 NOT_YET = "check not built yet in this round (specification and harness in progress; see DESIGN.md section 9)"
